@@ -904,6 +904,7 @@ static void mode_bom(vf::Ctx& c)
 		static const char* pre[] = {"\xef\xbb", "\xef\xbbz", "\xef", "\xff", "\xfe", "\xef\xbf\xbb", "\xbb\xbf", "\xff\xff", "\xfe\xfe", "\xef\xbb\xbe", "\xfd\xff"};
 		Bytes t = pre[c.rng.below(sizeof(pre) / sizeof(pre[0]))];
 		if (c.rng.chance(0.7)) { TextStats st; t += gen_text(c, st, 3, true); }
+		if (starts_with_bom(t)) t.insert(1, "q");   // prefix + first text byte completed a real mark: break it up
 		c.desc("text that starts almost like a byte-order mark: " + vf::vis(t, 60));
 		posix_write(path, t);
 		check_text(c, path, t);
